@@ -8,9 +8,12 @@
   is a definition; a template stage applies the same rule to the sources it
   can see; a task template's own defaults and vars rank below everything from
   the workflow. Stated with `firstDefined` over explicit ranked source lists —
-  no flattening, no merging.
+  no flattening, no merging. After load, variables written at run time
+  (SetRuntimeVar & co.) are user vars of the role they were written on: they are
+  visible exactly in that role's subtree (`writesOk`).
 -/
 import ControlModel.Model.Vars
+import ControlModel.Model.VarsTree
 
 namespace Vars
 
@@ -64,6 +67,15 @@ def tmplOrderIrrelevant (keys : List String) (r : RoleIn) : Bool :=
   | none => true
   | some (td, tv) => keys.all fun k =>
       (get (ranked r.path) k).isSome || (lookup td k).isNone || (lookup tv k).isNone || lookup td k == lookup tv k
+
+/-- Spec on a LOADED tree after a history of runtime writes (roles in pre-order):
+    every role shows what the rule demands of its own chain — itself, its
+    ancestors, the environment — where a write counts exactly at the role it was
+    made on and below it, as a user var of that role (`rolesReplayed`). A value
+    written on a role that is neither `s` nor an ancestor of `s` must not exist for `s`. -/
+def writesOk (keys : List String) (t : Forest) (ws : List Write) (env : Path) (tmpl : Option (KV × KV))
+    (obs : List RoleObs) : Bool :=
+  caseOk keys (rolesReplayed t ws env tmpl) obs
 
 /-- The probed keys stay clear of the six task-special names. -/
 def keysClear (keys : List String) : Bool := keys.all fun k => !specialKeys.contains k
